@@ -16,7 +16,7 @@ from . import cmds
 from .core import HarnessError
 from .hidsim import (BusLine, FakeGlob, FakeOS, FakeRandom, HassebGW, Latency,
                      TridonicGW)
-from .loop import SimDeadlock, SimStepCap
+from .loop import SimDeadlock, SimLivelock, SimStepCap
 from .serialsim import FakeSerialAsyncio, LubaGW, SciGW
 from .world import ScriptedBus, World
 
@@ -212,6 +212,10 @@ async def _caller(world, driver, c, recs, hooks):
                 rec.exc = e
                 if rec.status == "timeout":
                     world.fault("caller-timeout")
+            except SimLivelock as e:
+                rec.status = "livelock"
+                rec.exc = e
+                world.probe("livelock")
             except Exception as e:          # noqa: BLE001 - judged by oracles
                 rec.status = "raised"
                 rec.exc = e
@@ -312,7 +316,7 @@ def run(plan, hooks=None):
     rr.ops = {}
     rr.status_events = []
     rr.traffic_events = []
-    rr.deadlock = rr.stepcap = False
+    rr.deadlock = rr.stepcap = rr.livelock = False
     rr.connect_error = None
     rr.pending = []
     for c in plan["callers"]:
@@ -376,6 +380,9 @@ def run(plan, hooks=None):
             rr.deadlock = True
         except SimStepCap:
             rr.stepcap = True
+        except SimLivelock:
+            rr.stepcap = True
+            rr.livelock = True
         rr.unhandled = list(world.loop.unhandled)
         rr.vtime = world.loop.time()
         rr.final = snapshot(plan, getattr(rr, "driver", None))
